@@ -10,6 +10,9 @@ falling-factorial form for a stochastic mass-action export (sympy, with witness)
 R14.3 stoichiometry: reactant/product references get the multiplicity of each distinct species;
 R14.5 mode forwarding: generate_sbml_model hands add_reaction the export's stochastic flag and the
 reaction's own recorded fields for every reaction (shared with C12 R12.3).
+R14.6 formula language: the libsbml parser that turns the rate string into MathML (identified at the call site, with its
+settings) gives every function name of bioscrape's expression language (exp, log, abs, min, max, Heaviside) and the operator
+grammar (unary minus vs ^, associativity of ^) the meaning bioscrape's own parser gives it.
 R14.4 modifiers: every species a Hill/general law mentions that is neither reactant nor product
 is declared as a modifier of the reaction.
 """
@@ -25,7 +28,9 @@ from . import c01
 
 EXPLANATION = __doc__
 ASSUMPTIONS = ['general rate strings are passed through as written (their value is C02)',
-               'libsbml.parseL3Formula parses the infix string with ^ as power']
+               'the libsbml parsers behave as documented (tables L3_LANG / LEGACY_LANG: log is log10 for the L3 parser unless '
+               'L3ParserSettings.setParseLog says otherwise; the legacy parser binds unary minus tighter than ^)',
+               'min/max MathML (SBML L3V2) is taken as defined']
 HILLS = ['hillpositive', 'hillnegative', 'proportionalhillpositive', 'proportionalhillnegative']
 
 
@@ -153,9 +158,88 @@ def check_templates(ctx, f):
            "a general rate is exported as written (only '**' -> '^')", 'template %r' % (text,))
     # the final spelling step and the parse
     txt = [util.stmt_key(s).replace(' ', '') for s in f.body]
-    ok = "ratestring=str(ratestring).replace('**','^')" in txt and 'math_ast=libsbml.parseL3Formula(ratestring)' in txt and \
-        'flag=ratelaw.setMath(math_ast)' in txt
+    _, (_, _, pcall) = parser_at(ctx, 'add_reaction')
+    par = getattr(pcall, '_parent', None)
+    res = src(par.targets[0]) if isinstance(par, ast.Assign) and len(par.targets) == 1 else None
+    ok = "ratestring=str(ratestring).replace('**','^')" in txt and pcall.args and src(pcall.args[0]) == 'ratestring' and res is not None and \
+        any(t.endswith('ratelaw.setMath(%s)' % res) for t in txt)
     ctx.ob('R14.2-value', 'parse-and-set', ok, where, 'the built string is what is parsed and set as the kinetic law', '')
+
+
+# ---- the expression language on both sides of the writer's parser ------------------------------------------------------------
+# what a name / the operator grammar means to bioscrape's own parser (C02: sympy reading, TABLE of translated nodes)
+BIOSCRAPE_LANG = {'exp': 'exp', 'log': 'ln', 'abs': 'abs', 'min': 'min', 'max': 'max', 'Heaviside': 'step',
+                  'operators': 'unary minus binds weaker than ^, ^ associates to the right'}
+UNDEF = 'a call of an undefined function'
+# what the same text means to the libsbml parsers (libsbml documentation of SBML_parseL3Formula / L3ParserSettings / SBML_parseFormula)
+L3_LANG = {'exp': 'exp', 'log': 'log10', 'abs': 'abs', 'min': 'min', 'max': 'max', 'Heaviside': UNDEF,
+           'operators': 'unary minus binds weaker than ^, ^ associates to the right'}
+LEGACY_LANG = {'exp': 'exp', 'log': 'ln', 'abs': 'abs', 'min': UNDEF, 'max': UNDEF, 'Heaviside': UNDEF,
+               'operators': 'unary minus binds tighter than ^, ^ associates to the left'}
+
+
+def parser_at(ctx, fname):
+    """which libsbml parser turns the formula string into MathML in sbmlutil.<fname> -> (language table, description, call node)"""
+    f = get_func(ctx, fname)
+    m = ctx.prog.mod('sbmlutil')
+    sites = []
+    for c in ast.walk(f):
+        if not isinstance(c, ast.Call):
+            continue
+        name = src(c.func)
+        if name in ('libsbml.parseL3Formula', 'parseL3Formula'):
+            sites.append((dict(L3_LANG), 'libsbml.parseL3Formula (default settings)', c))
+        elif name in ('libsbml.parseFormula', 'parseFormula'):
+            sites.append((dict(LEGACY_LANG), 'libsbml.parseFormula (legacy infix parser)', c))
+        elif isinstance(c.func, ast.Attribute) and c.func.attr == 'setFormula':
+            sites.append((dict(LEGACY_LANG), '%s (uses the legacy infix parser)' % name, c))
+        elif name in ('libsbml.parseL3FormulaWithSettings', 'parseL3FormulaWithSettings') and len(c.args) == 2:
+            sv = src(c.args[1])
+            lang = dict(L3_LANG)
+            modes = []
+            for n in list(ast.walk(f)) + list(ast.walk(m.tree)):
+                if isinstance(n, ast.Call) and isinstance(n.func, ast.Attribute) and n.func.attr == 'setParseLog' and src(n.func.value) == sv and n.args:
+                    modes.append(src(n.args[0]).split('.')[-1])
+            modes = sorted(set(modes))
+            if modes == ['L3P_PARSE_LOG_AS_LN']:
+                lang['log'] = 'ln'
+            elif modes == ['L3P_PARSE_LOG_AS_ERROR']:
+                lang['log'] = 'rejected'
+            elif modes not in ([], ['L3P_PARSE_LOG_AS_LOG10']):
+                raise AnalysisError('%s: parser settings %s not understood (%s)' % (fname, sv, modes))
+            sites.append((lang, 'libsbml.parseL3FormulaWithSettings (log read as %s)' % lang['log'], c))
+    if len(sites) != 1:
+        raise AnalysisError('%s: expected exactly one formula-parsing call, found %d' % (fname, len(sites)))
+    return f, sites[0]
+
+
+def readback(meaning):
+    """what bioscrape's reader (formulaToL3String, then its own parser) makes of a parsed node"""
+    if meaning == 'log10':
+        return "rejected on import ('log10' is not in bioscrape's expression language)"
+    return meaning      # ln is printed as ln(..) = sympy log; undefined functions come back under their own name
+
+
+def check_formula_language(ctx, rule, fname, site, mode):
+    """mode 'sbml': the MathML must mean, as plain SBML, what the text means to bioscrape (C14);
+    mode 'roundtrip': reading the MathML back must give bioscrape the same meaning (C12)."""
+    f, (lang, desc, call) = parser_at(ctx, fname)
+    ctx.call_sites += 1
+    where = ctx.loc('sbmlutil', call)
+    for name, mine in BIOSCRAPE_LANG.items():
+        theirs = lang[name]
+        if mode == 'sbml':
+            ok = theirs == mine or (mine == 'step' and False)
+            detail = '' if ok else "%s reads %s as %s; bioscrape evaluates it as %s" % (
+                desc, "'%s(...)'" % name if name != 'operators' else 'the operator grammar', theirs, mine)
+        else:
+            back = readback(theirs)
+            ok = back == mine or (theirs == UNDEF)      # an undefined function is written and read back by name
+            detail = '' if ok else "%s reads %s as %s, which comes back as: %s; bioscrape's own reading is %s" % (
+                desc, "'%s(...)'" % name if name != 'operators' else 'the operator grammar', theirs, back, mine)
+        ctx.ob(rule, '%s/%s' % (site, name), ok, where,
+               ("the writer's parser gives '%s' the meaning bioscrape gives it" % name) if mode == 'sbml' else
+               ("'%s' written to SBML and read back keeps bioscrape's meaning" % name), detail, fp=theirs)
 
 
 def check_stoichiometry(ctx, f):
@@ -259,6 +343,8 @@ def check(ctx):
     check_templates(ctx, f)
     check_stoichiometry(ctx, f)
     check_modifiers(ctx, f)
+    check_formula_language(ctx, 'R14.6-formula-language', 'add_reaction', 'kinetic-law', 'sbml')
+    ctx.floor('R14.6-formula-language', 7)
     # "the deterministic rate in a deterministic export and the combinatorial stochastic rate in a stochastic export": the templates
     # above are selected by add_reaction's `stochastic` argument, which must be the export's flag for every reaction, together with
     # the reaction's own 8 fields (C12 R12.3) - re-emitted here
